@@ -81,6 +81,8 @@ def seq_cases():
         for opt in ("SGD", "SGDm", "Adam", "AdamW"):
             out.append({"op": "seq:opt_step", "shapes": [], "args": {"dtype": dt, "opt": opt}})
         out.append({"op": "seq:dropout_train_eval", "shapes": [], "args": {"dtype": dt}})
+        for shape in ((), (3,), (2, 3)):
+            out.append({"op": "seq:leaf_root_backward", "shapes": [list(shape)], "args": {"dtype": dt}})
     return out
 
 def judge_seq(case):
@@ -119,6 +121,17 @@ def judge_seq(case):
                 for nme, p in (("weight", L.weight), ("bias", L.bias)):
                     chk(f"{nme} after step {step + 1}", p); chk(f"{nme}.grad", p.grad)
                     if tuple(p.grad.shape) != tuple(p.shape): v("grad-shape", f"{nme}.grad shape {p.grad.shape}")
+        elif name == "seq:leaf_root_backward":
+            shape = tuple(case["shapes"][0])
+            for first in ("fresh", "after_graph_backward", "after_zero"):
+                for gdt in (np.float32, np.float64):
+                    x = sg.Tensor(values.generic(shape).astype(dt), requires_grad=True)
+                    if first == "after_graph_backward": (x * 2.0).sum().backward()
+                    if first == "after_zero": x.zero_()
+                    for rep in range(2):
+                        x.backward(sg.Tensor(np.ones(shape, dtype=gdt)))
+                        chk(f"leaf root .grad ({first}, call {rep + 1}, upstream gradient {np.dtype(gdt).name})", x.grad)
+                        if tuple(x.grad.shape) != shape: v("grad-shape", f"leaf root grad shape {x.grad.shape} != {shape}")
         else:
             L = nn.Dropout(0.5); x = values.generic((4, 3)).astype(dt)
             for mode in ("train", "eval", "train"):
